@@ -36,7 +36,7 @@ def units(tier, seed):
             out.append({"p": 4, "codes": part, "labs": ["cancel"], "fams": ["F1", "F3"], "ns": [2], "src": ["none"]})
     else:
         for part in split_list(dags4, 272):
-            out.append({"p": 4, "codes": part, "labs": ["cancel"], "fams": ["F1", "F3"], "ns": [2], "src": ["none"]})
+            out.append({"p": 4, "codes": part, "labs": ["cancel", "generic"], "fams": ["F1", "F2", "F3", "F4"], "ns": [2], "src": ["none"]})
     # wide graphs (10 nodes, parent sets mixing indices below and above 8): column order of the parents
     out.append({"wide": "targeted"})
     for part in split_list(_g.wide_sparse_codes("dag"), 8):
